@@ -48,7 +48,29 @@ def answerDamage (ws : List String) : Option String :=
     | some its =>
       let l : List DSnap := its.filterMap id
       let junk := decide (its.length > l.length)
-      if !(l.any (·.bad) || hasDupKey l) then none else
+      if !(l.any (·.bad) || hasDupKey l || opS == "b") then none else
+      if opS == "b" then
+        -- C14 snaps <items> b => pre=<f> meta=<t.i> start=<f> : the real peer started on the folder
+        match fieldD "pre" post, fieldD "meta" post, fieldD "start" post with
+        | some pre, some metaS, some st =>
+          match parseSReadD pre, parseSReadD st with
+          | some rp, some rs =>
+            let f : DFolder := some l
+            let newestBad := match newestD l with | some m => m.bad | none => false
+            let arm := "snaps-boot" ++ (if newestBad then "-damaged-newest" else if l.any (·.bad) then "-damaged-older" else "") ++
+              (if hasDupKey l then "-tie" else "") ++ (if junk then "-leftovers" else "")
+            let obs : DObs := { pre := rp, off := rp, old0 := .absent, cnt := l.length, old0cnt := 0, failed := false, start := rs }
+            let cs := damageClauses false (l.map (fun x => (x.s.term, x.s.index, x.s.pin, x.bad))) .boot obs
+            if !cs.all (·.2) then some ("propfail " ++ failedNamesD cs ++ " arm=" ++ arm) else
+            let mStart := match startD l with | some c => toString c | none => "?"
+            let checks : List (String × Bool) :=
+              [("pre", pre == showReadD (offlineD f)), ("meta", metaS == showMetaD f), ("start", st == mStart)]
+            if !checks.all (·.2) then
+              some ("diff " ++ failedNamesD checks ++ " arm=" ++ arm ++ " model=pre=" ++ showReadD (offlineD f) ++ ",meta=" ++ showMetaD f ++ ",start=" ++ mStart)
+            else some ("ok arm=" ++ arm)
+          | _, _ => some "bad-case snaps-read"
+        | _, _, _ => some "bad-case snaps-parse"
+      else
       let parsed := do
         let op : DOp ← (if opS == "o" then some .read else if opS == "c" then some .clean
                         else if opS.startsWith "s" then (opS.drop 1).toNat?.map .save else none)
@@ -66,7 +88,7 @@ def answerDamage (ws : List String) : Option String :=
       | some (op, pre, metaS, off, nmeta, cnt, old0, old0cnt, err) =>
         let f : DFolder := some l
         let newestBad := match newestD l with | some m => m.bad | none => false
-        let arm := "snaps-" ++ (match op with | .read => "read" | .clean => "clean" | .save _ => "save") ++
+        let arm := "snaps-" ++ (match op with | .read => "read" | .clean => "clean" | .save _ => "save" | .boot => "boot") ++
           (if newestBad then "-damaged-newest" else if l.any (·.bad) then "-damaged-older" else "") ++
           (if hasDupKey l then "-tie" else "") ++ (if junk then "-leftovers" else "")
         match parseSReadD pre, parseSReadD off, parseSReadD old0 with
@@ -76,6 +98,7 @@ def answerDamage (ws : List String) : Option String :=
           if !cs.all (·.2) then some ("propfail " ++ failedNamesD cs ++ " arm=" ++ arm) else
           let after : After := match op with
             | .read => ⟨f, none, false⟩
+            | .boot => ⟨f, none, false⟩
             | .clean => cleanupD f
             | .save c => saveD f c
           let checks : List (String × Bool) :=
